@@ -12,6 +12,7 @@ import (
 	"encoding/pem"
 	"io"
 	"os"
+	"syscall"
 
 	"github.com/foxboron/go-uefi/authenticode"
 	"github.com/foxboron/go-uefi/efi/attributes"
@@ -50,6 +51,9 @@ type faultySigner struct {
 func (s faultySigner) Public() crypto.PublicKey { return s.inner.Public() }
 func (s faultySigner) Sign(r io.Reader, digest []byte, opts crypto.SignerOpts) ([]byte, error) {
 	if s.log.next("signer.Sign") {
+		if s.log.kind == "eintr" {
+			return nil, syscall.EINTR // a transient-looking error is an error
+		}
 		return nil, errInjected
 	}
 	return s.inner.Sign(r, digest, opts)
@@ -155,7 +159,7 @@ func runFaults(sc M) {
 			f := "none"
 			if c.Err == errInjected.Error() {
 				f = "error"
-			} else if c.Err == "short" || c.Err == "short1" || c.Err == "short4" || c.Err == "partial" || c.Err == "partial-error" {
+			} else if c.Err == "short" || c.Err == "short1" || c.Err == "short4" || c.Err == "partial" || c.Err == "partial-error" || c.Err == "eof0" {
 				f = c.Err
 			}
 			dl.calls = append(dl.calls, M{"dep": fsDepName[c.Op], "fault": f})
@@ -219,8 +223,18 @@ func runFaults(sc M) {
 			if api == "readvar" {
 				e := &efivarfs.EFIFS{FSWrapper: fswrapper.NewMemoryWrapper()}
 				e.SetFS(rfs)
-				err = e.GetVar(v, &c)
-				end["value_returned"] = err != nil && c.called
+				if sc["typed"] == true {
+					// the typed accessor of the variable
+					var db *signature.SignatureDatabase
+					db, err = efivarfs.Open(e).Getdb()
+					if err == nil {
+						c.b, c.called = db.Bytes(), true
+					}
+					end["value_returned"] = err != nil && db != nil && len(*db) > 0
+				} else {
+					err = e.GetVar(v, &c)
+					end["value_returned"] = err != nil && c.called
+				}
 			} else {
 				efifs.SetFS(rfs)
 				var buf *bytes.Buffer
